@@ -408,6 +408,11 @@ func (x *Exec) step(st *State, instr ssa.Instruction) {
 				} else if _, isConst := in.X.(*ssa.Const); isConst {
 					fr.names[id.Name] = namedRef{x.eval(st, in.X), false}
 				}
+				if nr, ok := fr.names[id.Name]; ok {
+					for _, a := range x.aliasesOf(id.Name) {
+						fr.names[a] = nr
+					}
+				}
 			}
 		}
 	case *ssa.Alloc:
